@@ -46,9 +46,11 @@ vpv_cell!(#[kani::unwind(50)] c40_scalar_duration, "C40/equivalence+hash/duratio
 vpv_cell!(#[kani::unwind(50)] c40_scalar_str, "C40/equivalence+hash/str(1 char)", (a: u8, b: u8, c: u8), { let (x, y, z) = (str1(a), str1(b), str1(c)); let ok = equiv3(&x, &y, &z); std::mem::forget(x); std::mem::forget(y); std::mem::forget(z); ok });
 vpv_cell!(#[kani::unwind(50)] c40_cross_kind, "C40/cross-kind/never-equal+symmetric", (k1: u8, i1: i64, f1: f64, k2: u8, i2: i64, f2: f64), {
     let (x, y) = (scalar(k1, i1, f1), scalar(k2, i2, f2));
-    if k1 % 6 == k2 % 6 { (x == y) == (y == x) } else { !(x == y) && !(y == x) } });
+    let ok = if k1 % 6 == k2 % 6 { (x == y) == (y == x) } else { !(x == y) && !(y == x) };
+    std::mem::forget(x); std::mem::forget(y);
+    ok });
 vpv_cell!(#[kani::unwind(50)] c40_cross_kind_str, "C40/cross-kind/str-vs-scalar", (c: u8, k: u8, i: i64, f: f64), {
-    let (x, y) = (str1(c), scalar(k, i, f)); let ok = !(x == y) && !(y == x); std::mem::forget(x); ok });
+    let (x, y) = (str1(c), scalar(k, i, f)); let ok = !(x == y) && !(y == x); std::mem::forget(x); std::mem::forget(y); ok });
 vpv_cell!(#[kani::unwind(50)] c40_float_special, "C40/float/NaN-and-signed-zero-consistent-with-hash", (a: f64, b: f64), {
     let (x, y) = (Value::Float(a), Value::Float(b));
     let expect = (a.is_nan() && b.is_nan()) || a == b;
